@@ -9,6 +9,7 @@ def SameKeys (a b : Section) : Prop := b.id = a.id ∧ b.order = a.order ∧ b.a
 structure InvS (secs : List Section) : Prop where
   sorted : OrderSorted secs
   ids : ∀ s ∈ secs, s.id < secs.length
+  nodup : secs.Pairwise (fun a b => a.id ≠ b.id)
   shape : ∃ t rest, secs = t :: rest ∧ t.id = 0 ∧ t.order = -2147483648 ∧ t.align = 0 ∧
             ∀ s ∈ rest, GoodAlign s.align ∧ -2147483648 ≤ s.order ∧ 0 < s.id
 
@@ -68,7 +69,7 @@ theorem SameKeys.refl_all (l : List Section) : AllRel SameKeys l l := by
 
 /-- the invariant only depends on (id, order, align) position by position -/
 theorem InvS.transfer {l₁ l₂ : List Section} (h : AllRel SameKeys l₁ l₂) (hi : InvS l₁) : InvS l₂ := by
-  refine ⟨?_, ?_, ?_⟩
+  refine ⟨?_, ?_, h.pairwise hi.nodup (fun a a' b b' ha hb hab => by rw [ha.1, hb.1]; exact hab), ?_⟩
   · refine h.pairwise hi.sorted ?_
     intro a a' b b' ha hb hab
     unfold OrdLt at *
@@ -173,6 +174,23 @@ theorem sorted_insertByOrder (s : Section) (l : List Section) (hs : OrderSorted 
       · exact hsa
       · exact hsa.trans (hs.1 b hb)
 
+theorem pairwise_insertByOrder {R : Section → Section → Prop} (s : Section) (l : List Section) (hp : l.Pairwise R)
+    (hs : ∀ a ∈ l, R a s ∧ R s a) : (insertByOrder s l).Pairwise R := by
+  induction l with
+  | nil => simp [insertByOrder]
+  | cons a rest ih =>
+    rw [List.pairwise_cons] at hp
+    unfold insertByOrder
+    split
+    · rw [List.pairwise_cons]
+      refine ⟨?_, ih hp.2 (fun b hb => hs b (by simp [hb]))⟩
+      intro b hb
+      rcases mem_insertByOrder.mp hb with rfl | hb
+      · exact (hs a (by simp)).1
+      · exact hp.1 b hb
+    · rw [List.pairwise_cons]
+      refine ⟨fun b hb => (hs b hb).2, List.pairwise_cons.mpr hp⟩
+
 theorem newSection_inv (h : Holder) (name : String) (align : BitVec 32) (order : Int)
     (ho : -2147483648 ≤ order) (hi : InvS h.secs) : InvS (newSection h name align order).1.secs := by
   unfold newSection
@@ -188,7 +206,7 @@ theorem newSection_inv (h : Holder) (name : String) (align : BitVec 32) (order :
         split
         · unfold GoodAlign U64; decide
         · rename_i hne; exact goodAlign_of_pow2 align (by simpa using hp) hne
-      refine ⟨?_, ?_, ?_⟩
+      refine ⟨?_, ?_, ?_, ?_⟩
       · apply sorted_insertByOrder _ _ hi.sorted
         intro a ha; exact hi.ids a ha
       · intro x hx
@@ -196,6 +214,10 @@ theorem newSection_inv (h : Holder) (name : String) (align : BitVec 32) (order :
         rcases mem_insertByOrder.mp hx with rfl | hx
         · simp
         · have := hi.ids x hx; omega
+      · apply pairwise_insertByOrder _ _ hi.nodup
+        intro a ha
+        have := hi.ids a ha
+        constructor <;> (show _ ≠ _; simp only []; omega)
       · rw [hsec]
         have hlt : secLt t { id := (t :: rest).length, order := order, align := (if align.toNat = 0 then 1 else align.toNat),
                               offset := sizeMax, vsize := 0, name := name, data := [] } = true := by
